@@ -31,7 +31,8 @@ def generate(key, options=None):
         ex = FnExec(cf, name, c, options=options)
         r.ex = ex
         ex.run()
-        unused = [k for k in c.loops if k not in ex.loop_keys_used]
+        unused = [k for k in c.loops if k not in ex.loop_keys_used] + \
+                 [k for k in c.asserts if k != "end" and ("assert", k) not in ex.loop_keys_used]
         if unused:
             raise Unsupported("contract names loops that do not exist (or are unrolled): %s" % unused)
         r.obs = ex.obs
